@@ -162,6 +162,10 @@ class Ctx:
         env.update({"GOFLAGS": "-mod=mod", "GOPROXY": "off", "GOSUMDB": "off", "GOTOOLCHAIN": "local",
                     "VERIF_SEED": str(self.seed), "VERIF_TIER": self.tier, "VERIF_REPO": self.repo,
                     "VERIF_DIR": VERIF})
+        # everything the drivers (and the code under test) put in the temp dir goes away with the work dir
+        tmp = os.path.join(self.work, "tmp")
+        os.makedirs(tmp, exist_ok=True)
+        env["TMPDIR"] = tmp
         return env
 
     def go_test(self, pkg, run=None, env=None, race=False, timeout=900, tags="verif",
